@@ -28,6 +28,21 @@ Theorem C20_incomplete_key_refuted : forall (call K result : Type) (key : call -
 Proof. exact incomplete_key_refuted. Qed.
 Print Assumptions C20_incomplete_key_refuted.
 
+(** the near-collision pair test of the check (two calls that differ in ONE argument and in their value, run one after
+    the other from an empty dictionary): both are answered correctly exactly when the key tells them apart ... *)
+Theorem C20_near_collision_pair_decides : forall (call K result : Type) (key : call -> K)
+  (Kdec : forall a b : K, {a = b} + {a <> b}) (f : call -> result) c1 c2, f c1 <> f c2 ->
+  (results key Kdec f [c1; c2] = map f [c1; c2] <-> key c1 <> key c2).
+Proof. exact near_collision_pair_decides. Qed.
+Print Assumptions C20_near_collision_pair_decides.
+
+(** ... and the two-call histories are a complete test: the key is incomplete iff some pair is answered wrongly *)
+Theorem C20_key_incomplete_iff_some_pair_fails : forall (call K result : Type) (key : call -> K)
+  (Kdec : forall a b : K, {a = b} + {a <> b}) (f : call -> result),
+  (exists c1 c2, key c1 = key c2 /\ f c1 <> f c2) <-> (exists c1 c2, results key Kdec f [c1; c2] <> map f [c1; c2]).
+Proof. exact key_incomplete_iff_some_pair_fails. Qed.
+Print Assumptions C20_key_incomplete_iff_some_pair_fails.
+
 (** the six numeric caches of dadi (Numerics._multinomln_cache, _BetaBinomln_cache, _part_cache, _part_precalc_cache,
     _projection_cache, Spectrum_mod._dbeta_cache): the key is the whole argument list, every history is transparent;
     special functions are oracles *)
@@ -54,6 +69,34 @@ Theorem C20_key_complete_lowpass_precalc_cache : forall (Env Args Precalc : Type
   (precalc : Env -> Precalc) (a1 a2 : Args), lp_key Env Args env nsub a1 = lp_key Env Args env nsub a2 ->
   lp_f Env Args Precalc env precalc a1 = lp_f Env Args Precalc env precalc a2.
 Proof. exact key_complete_lowpass_precalc_cache. Qed.
+
+(** the same matrices in a dictionary SHARED by all generated low-pass functions (module level): transparent when the key
+    keeps the whole environment of the generated function ... *)
+Theorem C20_shared_cache_transparent : forall (Env Args KeyT Precalc : Type) (kproj : Env -> KeyT)
+  (Kdec : forall a b : KeyT, {a = b} + {a <> b}) (precalc : Env -> Precalc),
+  (forall e1 e2, kproj e1 = kproj e2 -> precalc e1 = precalc e2) ->
+  forall h : list (sh_call Env Args), results (sh_key kproj) Kdec (sh_f precalc) h = map (sh_f precalc) h.
+Proof. exact shared_cache_transparent. Qed.
+
+Theorem C20_lowpass_shared_full_key_transparent : forall (Args Precalc : Type) (precalc : lp_env -> Precalc) (h : list (sh_call lp_env Args)),
+  results (sh_key lp_key_full) dec_lp_full (sh_f precalc) h = map (sh_f precalc) h.
+Proof. exact lowpass_shared_full_key_transparent. Qed.
+Print Assumptions C20_lowpass_shared_full_key_transparent.
+
+(** ... a key that confuses two environments answers the second generated function with the first one's matrices ... *)
+Theorem C20_shared_cache_incomplete_key_refuted : forall (Env Args KeyT Precalc : Type) (kproj : Env -> KeyT)
+  (Kdec : forall a b : KeyT, {a = b} + {a <> b}) (precalc : Env -> Precalc) e1 e2 (a1 a2 : Args),
+  kproj e1 = kproj e2 -> precalc e1 <> precalc e2 ->
+  results (sh_key kproj) Kdec (sh_f precalc) [(e1, a1); (e2, a2)] = [precalc e1; precalc e1] /\
+  results (sh_key kproj) Kdec (sh_f precalc) [(e1, a1); (e2, a2)] <> map (sh_f precalc) [(e1, a1); (e2, a2)].
+Proof. exact shared_cache_incomplete_key_refuted. Qed.
+
+(** ... and [tuple(cov_dist)] (the population NAMES of the coverage dictionary) is such a key *)
+Theorem C20_lowpass_shared_names_key_refuted :
+  exists (precalc : lp_env -> list (nat * list Z)) (h : list (sh_call lp_env unit)),
+    results (sh_key lp_key_names) dec_lp_names (sh_f precalc) h <> map (sh_f precalc) h.
+Proof. exact lowpass_shared_names_key_refuted. Qed.
+Print Assumptions C20_lowpass_shared_names_key_refuted.
 
 (** Godambe.cache keyed by func_ex.__hash__(): with address reuse there is a history with a stale hit ... *)
 Theorem C20_godambe_cache_key_refuted :
